@@ -252,7 +252,9 @@ PROPS = {
         "explanation": "",
     },
     "C02": {
-        "units": ["decode"],
+        "units": ["decode", "bitstream"],
+        # the bit-level readers every decoder contract rests on (proved in unit bitstream, shared with C13)
+        "functions": {"bitstream": ["BitIter::next", "BitIter::read_bit", "BitIter::read_u2", "BitIter::read_u8", "BitIter::read_natural", "BitIter::close"]},
         "native_cex": "c02_codec_replay",
         "kani": {"quick": ["c13_read_cmr_complete", "c13_read_cmr_short_complete"], "thorough": ["c13_read_fail_entropy_complete"]},
         "level": "proof",
@@ -282,7 +284,10 @@ PROPS = {
         "explanation": "",
     },
     "C01": {
-        "units": ["encode"],
+        "units": ["encode", "dag", "bitstream"],
+        # the tracker the serialiser shares nodes with, and the bit-level writers every encoder contract rests on
+        "functions": {"dag": ["EncodeSharing::record", "EncodeSharing::seen_before"],
+                      "bitstream": ["BitWriter::write_bit", "BitWriter::write_bits_be", "BitWriter::flush_all", "BitWriter::n_total_written", "encode_natural", "truncated_bit_len"]},
         "kani": {"quick": [], "thorough": ["c01_encode_hash_bounded"]},
         "fallback": {"encode_hash": ["c01_encode_hash_bounded"]},
         "native_cex": "c02_codec_replay",
